@@ -129,7 +129,7 @@ theorem dfs_spec (prev : Int → List Int) : ∀ fuel, DfsSpec prev (dfs prev fu
         simp [Dfs.bad]
     · by_cases h2 : s.state n = 2
       · -- state 2: done
-        simp only [dfs, h1, h2, if_true, if_false]
+        simp only [dfs, h2, if_true]
         exact ⟨hinv, Step.refl s, fun _ => (hinv.mem_iff n).2 h2⟩
       · -- new node
         rw [dfs_new h1 h2]
@@ -197,5 +197,276 @@ theorem dfs_spec (prev : Int → List Int) : ∀ fuel, DfsSpec prev (dfs prev fu
           have : r.1.bad = true := hS.bad (by simpa [Dfs.bad, dfsStart] using hb)
           simpa [Dfs.bad] using this
         · intro _; simp
+
+/-! ### the order graph of a list of alternatives -/
+
+theorem mem_prevOf {las : List Alt} {a b : Int} : a ∈ prevOf las b ↔ (a, b) ∈ edges las := by
+  simp only [prevOf, List.mem_filterMap]
+  constructor
+  · rintro ⟨⟨a', b'⟩, he, h⟩
+    simp only at h
+    split at h
+    · next hb => simp only [Option.some.injEq] at h; subst h; subst hb; exact he
+    · cases h
+  · intro he
+    exact ⟨(a, b), he, by simp⟩
+
+theorem mem_edges {las : List Alt} {e : Int × Int} :
+    e ∈ edges las ↔ ∃ la ∈ las, e ∈ pairsOf (inputsOf la) := by
+  simp [edges, List.mem_flatMap]
+
+theorem pairsOf_mem {xs : List Int} {e : Int × Int} (h : e ∈ pairsOf xs) : e.1 ∈ xs ∧ e.2 ∈ xs := by
+  induction xs with
+  | nil => simp [pairsOf] at h
+  | cons a t ih =>
+    cases t with
+    | nil => simp [pairsOf] at h
+    | cons b t' =>
+      simp only [pairsOf, List.mem_cons] at h
+      rcases h with h | h
+      · subst h; simp
+      · have := ih h
+        exact ⟨List.mem_cons_of_mem _ this.1, List.mem_cons_of_mem _ this.2⟩
+
+theorem pairsOf_of_pairwise {R : Int → Int → Prop} {xs : List Int} (h : xs.Pairwise R) :
+    ∀ e ∈ pairsOf xs, R e.1 e.2 := by
+  induction xs with
+  | nil => simp [pairsOf]
+  | cons a t ih =>
+    cases t with
+    | nil => simp [pairsOf]
+    | cons b t' =>
+      intro e he
+      simp only [pairsOf, List.mem_cons] at he
+      rw [List.pairwise_cons] at h
+      rcases he with he | he
+      · subst he; exact h.1 b (by simp)
+      · exact ih h.2 e he
+
+theorem mem_inputs_of_edge {las : List Alt} {a b : Int} (h : a ∈ prevOf las b) :
+    a ∈ las.flatMap inputsOf ∧ b ∈ las.flatMap inputsOf := by
+  obtain ⟨la, hla, he⟩ := mem_edges.1 (mem_prevOf.1 h)
+  have := pairsOf_mem he
+  exact ⟨List.mem_flatMap.2 ⟨la, hla, this.1⟩, List.mem_flatMap.2 ⟨la, hla, this.2⟩⟩
+
+theorem mem_inputs_of_topPrev {las : List Alt} {z : Int} (h : z ∈ topPrev las) :
+    z ∈ las.flatMap inputsOf := by
+  simp only [topPrev, List.mem_filterMap] at h
+  obtain ⟨la, hla, hl⟩ := h
+  exact List.mem_flatMap.2 ⟨la, hla, List.mem_of_getLast? hl⟩
+
+theorem foldl_insertNew_mem (l : List Int) (acc : List Int) (x : Int) (h : x ∈ acc ∨ x ∈ l) :
+    x ∈ l.foldl insertNew acc := by
+  induction l generalizing acc with
+  | nil => simpa using h
+  | cons y t ih =>
+    simp only [List.foldl_cons]
+    apply ih
+    rcases h with h | h
+    · left
+      unfold insertNew
+      split
+      · exact h
+      · exact List.mem_append_left _ h
+    · rcases List.mem_cons.1 h with rfl | h
+      · left
+        unfold insertNew
+        split
+        · next hc => simpa using hc
+        · simp
+      · right; exact h
+
+theorem mem_nodesOf {las : List Alt} {x : Int} (h : x ∈ las.flatMap inputsOf) : x ∈ nodesOf las :=
+  foldl_insertNew_mem _ [] x (Or.inr h)
+
+/-- an edge chain ending inside `order` lies in `order` with increasing positions -/
+theorem chain_ranked {prev : Int → List Int} {st : Dfs} (hinv : Inv prev st) (hb : st.bad = false) :
+    ∀ xs : List Int, (∀ e ∈ pairsOf xs, e.1 ∈ prev e.2) → (∀ z, xs.getLast? = some z → z ∈ st.order) →
+      (∀ x ∈ xs, x ∈ st.order) ∧ xs.Pairwise (fun a b => st.order.idxOf a < st.order.idxOf b) := by
+  intro xs
+  induction xs with
+  | nil => intro _ _; simp
+  | cons a t ih =>
+    cases t with
+    | nil =>
+      intro _ hl
+      have := hl a (by simp)
+      simp [this]
+    | cons b t' =>
+      intro hp hl
+      obtain ⟨hm, hpw⟩ := ih (fun e he => hp e (by simp [pairsOf, he]))
+        (fun z hz => hl z (by simpa [List.getLast?_cons_cons] using hz))
+      have hab : a ∈ prev b := hp (a, b) (by simp [pairsOf])
+      obtain ⟨ham, hlt⟩ := hinv.before hb b (hm b (by simp)) a hab
+      refine ⟨?_, List.pairwise_cons.2 ⟨?_, hpw⟩⟩
+      · intro x hx
+        rcases List.mem_cons.1 hx with rfl | hx
+        · exact ham
+        · exact hm x hx
+      · intro y hy
+        rcases List.mem_cons.1 hy with rfl | hy
+        · exact hlt
+        · have := (List.pairwise_cons.1 hpw).1 y hy
+          omega
+
+/-! ### the call `dfs(&top)` -/
+
+def dfsTopRaw (las : List Alt) : Dfs × Nat :=
+  (topPrev las).foldl (visit (dfs (prevOf las) ((nodesOf las).length + 2))) (dfsInit, 1)
+
+theorem dfsTop_eq (las : List Alt) :
+    dfsTop las = ({ (dfsTopRaw las).1 with order := (dfsTopRaw las).1.order ++ [0] }, (dfsTopRaw las).2) := rfl
+
+theorem inv_init (prev : Int → List Int) : Inv prev dfsInit :=
+  ⟨by simp [dfsInit], by simp [dfsInit], by simp [dfsInit], by simp [dfsInit]⟩
+
+theorem dfsTopRaw_spec (las : List Alt) :
+    Inv (prevOf las) (dfsTopRaw las).1 ∧
+      DInv (prevOf las) (topPrev las) (dfsTopRaw las).1 (dfsTopRaw las).2 ∧
+      ((dfsTopRaw las).1.bad = false → ∀ p ∈ topPrev las, p ∈ (dfsTopRaw las).1.order) := by
+  obtain ⟨h1, _, h3, h4⟩ := loop_spec (dfs_spec (prevOf las) ((nodesOf las).length + 2)) (topPrev las)
+    (topPrev las) (fun _ h => h) dfsInit 1 (inv_init _) (fun _ => Or.inl rfl)
+  exact ⟨h1, h3, h4⟩
+
+/-- Acyclic (no `cycle` flag) ⇒ position in the DFS post-order is a rank compatible with every alternative. -/
+theorem orderedBy_of_good (las : List Alt) (hb : (dfsTopRaw las).1.bad = false) :
+    OrderedBy las fun x => (dfsTopRaw las).1.order.idxOf x := by
+  obtain ⟨hinv, _, hmem⟩ := dfsTopRaw_spec las
+  intro la hla
+  have hch := chain_ranked hinv hb (inputsOf la)
+    (fun e he => mem_prevOf.2 (mem_edges.2 ⟨la, hla, he⟩))
+    (fun z hz => hmem hb z (by
+      simp only [topPrev, List.mem_filterMap]
+      exact ⟨la, hla, hz⟩))
+  exact hch.2
+
+/-! ### uniqueness of the order -/
+
+theorem subset_of_nodup_length {l₁ l₂ : List Int} (hn : l₁.Nodup) (hs : ∀ x ∈ l₁, x ∈ l₂)
+    (hl : l₂.length ≤ l₁.length) : ∀ x ∈ l₂, x ∈ l₁ := by
+  induction l₁ generalizing l₂ with
+  | nil =>
+    have : l₂ = [] := List.eq_nil_of_length_eq_zero (by simpa using hl)
+    subst this; simp
+  | cons a t ih =>
+    rw [List.nodup_cons] at hn
+    have ha : a ∈ l₂ := hs a (by simp)
+    have hlen : (l₂.erase a).length = l₂.length - 1 := List.length_erase_of_mem ha
+    have hsub : ∀ x ∈ t, x ∈ l₂.erase a := by
+      intro x hx
+      have hne : x ≠ a := fun h => hn.1 (h ▸ hx)
+      exact (List.mem_erase_of_ne hne).2 (hs x (List.mem_cons_of_mem _ hx))
+    have := ih hn.2 hsub (by simp at hl; omega)
+    intro x hx
+    by_cases hxa : x = a
+    · simp [hxa]
+    · exact List.mem_cons_of_mem _ (this x ((List.mem_erase_of_ne hxa).2 hx))
+
+theorem desc_pairwise {prev : Int → List Int} {rank : Int → Nat}
+    (hr : ∀ a b, a ∈ prev b → rank a < rank b) :
+    ∀ l : List Int, DescP prev l → l.Pairwise fun b a => rank a < rank b := by
+  intro l
+  induction l with
+  | nil => intro _; simp
+  | cons b t ih =>
+    cases t with
+    | nil => intro _; simp
+    | cons a t' =>
+      intro h
+      obtain ⟨hab, hrest⟩ := h
+      have hpw := ih hrest
+      refine List.pairwise_cons.2 ⟨?_, hpw⟩
+      intro y hy
+      rcases List.mem_cons.1 hy with rfl | hy
+      · exact hr _ _ hab
+      · have := (List.pairwise_cons.1 hpw).1 y hy
+        have := hr _ _ hab
+        omega
+
+theorem desc_mem {prev : Int → List Int} {S : List Int} (hS : ∀ a b, a ∈ prev b → a ∈ S) :
+    ∀ l : List Int, DescP prev l → (∀ z, l.head? = some z → z ∈ S) → ∀ y ∈ l, y ∈ S := by
+  intro l
+  induction l with
+  | nil => intro _ _; simp
+  | cons b t ih =>
+    cases t with
+    | nil =>
+      intro _ hh y hy
+      simp at hy; subst hy; exact hh y (by simp)
+    | cons a t' =>
+      intro h hh y hy
+      obtain ⟨hab, hrest⟩ := h
+      rcases List.mem_cons.1 hy with rfl | hy
+      · exact hh y (by simp)
+      · exact ih hrest (fun z hz => by simp at hz; subst hz; exact hS _ _ hab) y hy
+
+theorem agree_on_chain {r1 r2 : Int → Nat} :
+    ∀ l : List Int, (l.Pairwise fun b a => r1 a < r1 b) → (l.Pairwise fun b a => r2 a < r2 b) →
+      ∀ x ∈ l, ∀ y ∈ l, (r1 x < r1 y ↔ r2 x < r2 y) := by
+  intro l
+  induction l with
+  | nil => intro _ _ x hx; simp at hx
+  | cons h t ih =>
+    intro h1 h2 x hx y hy
+    rw [List.pairwise_cons] at h1 h2
+    rcases List.mem_cons.1 hx with hx' | hx' <;> rcases List.mem_cons.1 hy with hy' | hy'
+    · subst hx'; subst hy'; simp
+    · subst hx'
+      have a1 := h1.1 y hy'; have a2 := h2.1 y hy'
+      constructor <;> intro <;> omega
+    · subst hy'
+      have a1 := h1.1 x hx'; have a2 := h2.1 x hx'
+      constructor <;> intro <;> assumption
+    · exact ih h1.2 h2.2 x hx' y hy'
+
+/-- Acyclic and `top.depth = len(nodes)+1` ⇒ any two ranks compatible with all alternatives order
+the predicate inputs identically. -/
+theorem order_unique (las : List Alt) (hb : (dfsTopRaw las).1.bad = false)
+    (hd : (dfsTopRaw las).2 = (nodesOf las).length + 1) (r1 r2 : Int → Nat)
+    (h1 : OrderedBy las r1) (h2 : OrderedBy las r2) :
+    ∀ x ∈ las.flatMap inputsOf, ∀ y ∈ las.flatMap inputsOf, (r1 x < r1 y ↔ r2 x < r2 y) := by
+  obtain ⟨_, hD, _⟩ := dfsTopRaw_spec las
+  have edge_lt : ∀ (r : Int → Nat), OrderedBy las r → ∀ a b, a ∈ prevOf las b → r a < r b := by
+    intro r hr a b hab
+    obtain ⟨la, hla, he⟩ := mem_edges.1 (mem_prevOf.1 hab)
+    exact pairsOf_of_pairwise (hr la hla) (a, b) he
+  intro x hx y hy
+  rcases hD hb with h0 | ⟨p, hp, d', ⟨t, hdesc, hlen⟩, hdd⟩
+  · -- no node at all
+    have : (nodesOf las).length = 0 := by omega
+    have hnil : nodesOf las = [] := List.eq_nil_of_length_eq_zero this
+    have := mem_nodesOf hx
+    rw [hnil] at this; simp at this
+  · have hp1 := desc_pairwise (edge_lt r1 h1) _ hdesc
+    have hp2 := desc_pairwise (edge_lt r2 h2) _ hdesc
+    have hnd : (p :: t).Nodup := hp1.imp (fun {a b} h => by intro hab; subst hab; omega)
+    have hsub : ∀ z ∈ p :: t, z ∈ nodesOf las := fun z hz =>
+      mem_nodesOf (desc_mem (S := las.flatMap inputsOf) (fun a b h => (mem_inputs_of_edge h).1) _ hdesc
+        (fun z hz => by simp at hz; subst hz; exact mem_inputs_of_topPrev hp) z hz)
+    have hall := subset_of_nodup_length hnd hsub (by simp; omega)
+    exact agree_on_chain _ hp1 hp2 x (hall x (mem_nodesOf hx)) y (hall y (mem_nodesOf hy))
+
+/-! ### what acceptance by `newLookaheadRule` entails -/
+
+deriving instance DecidableEq for Except
+
+theorem newLookaheadRule_ok {las : List Alt} {r : Rule} (h : newLookaheadRule las = .ok r) :
+    (dfsTopRaw las).1.bad = false ∧ (dfsTopRaw las).2 = (nodesOf las).length + 1 ∧
+      elim las.length las (dfsTop las).1.order = .ok r := by
+  unfold newLookaheadRule at h
+  simp only at h
+  split at h
+  · cases h
+  · next hf =>
+    split at h
+    · cases h
+    · next hc =>
+      split at h
+      · cases h
+      · next hd =>
+        rw [dfsTop_eq] at hf hc hd
+        simp only [Bool.not_eq_true] at hf hc
+        simp only [ne_eq, Decidable.not_not] at hd
+        exact ⟨by simp [Dfs.bad, hf, hc], hd, h⟩
 
 end TmVerif.Lookahead
